@@ -19,6 +19,8 @@ def r7(ctx):
 
 
 RULES = {
+    # range offsets are computed on the section-relative position: the index delegation must not distort it
+    "C07.R8": lambda ctx: __import__("rules.bldrules", fromlist=["x"]).index_lookup(ctx, "C07.R8"),
     "C07.RL": lambda ctx: __import__("rules.common", fromlist=["x"]).loop_exit_rule(ctx, "C07.RL", {'encoder::serialize_range_mappings': 1, 'encoder::encode_rmi': 0, 'decoder::decode_rmi': 0}),
     "C07.R1": lambda ctx: encrules.range_writer(ctx, "C07.R1", ("R1", "R3")),
     "C07.R2": lambda ctx: encrules.range_writer(ctx, "C07.R2", ("R2",)),
